@@ -19,6 +19,7 @@ type hookCfg struct {
 	moment string // trigger name
 	weight int
 	crit   bool
+	call   bool // an integration call (sim plugin) instead of a hook task
 }
 
 var moments = []string{"before_START_ACTIVITY", "leave_CONFIGURED", "enter_RUNNING", "after_START_ACTIVITY"}
@@ -37,28 +38,48 @@ func cases() (out []wfCase) {
 		for _, w := range []int{-1, 0, 1} {
 			for _, c := range []bool{true, false} {
 				n++
-				out = append(out, wfCase{fmt.Sprintf("c09t-1-%d", n), []hookCfg{{m, w, c}}})
+				out = append(out, wfCase{fmt.Sprintf("c09t-1-%d", n), []hookCfg{{moment: m, weight: w, crit: c}}})
 			}
 		}
 	}
 	// two hook tasks in the same slot, and in different slots of the same moment
 	for i, m := range moments {
-		out = append(out, wfCase{fmt.Sprintf("c09t-2s-%d", i), []hookCfg{{m, 0, true}, {m, 0, true}}})
-		out = append(out, wfCase{fmt.Sprintf("c09t-2m-%d", i), []hookCfg{{m, 0, true}, {m, 0, false}}})
-		out = append(out, wfCase{fmt.Sprintf("c09t-2w-%d", i), []hookCfg{{m, -1, false}, {m, 1, true}}})
+		out = append(out, wfCase{fmt.Sprintf("c09t-2s-%d", i), []hookCfg{{m, 0, true, false}, {m, 0, true, false}}})
+		out = append(out, wfCase{fmt.Sprintf("c09t-2m-%d", i), []hookCfg{{m, 0, true, false}, {m, 0, false, false}}})
+		out = append(out, wfCase{fmt.Sprintf("c09t-2w-%d", i), []hookCfg{{m, -1, false, false}, {m, 1, true, false}}})
+	}
+	// a hook task and an integration call in the same slot, either of them failing
+	for i, m := range moments {
+		out = append(out, wfCase{fmt.Sprintf("c09t-xcc-%d", i), []hookCfg{{m, 0, true, false}, {m, 0, true, true}}})
+		out = append(out, wfCase{fmt.Sprintf("c09t-xnc-%d", i), []hookCfg{{m, 0, false, false}, {m, 0, true, true}}})
+		out = append(out, wfCase{fmt.Sprintf("c09t-xcn-%d", i), []hookCfg{{m, 0, true, false}, {m, 0, false, true}}})
 	}
 	return
+}
+
+func (c wfCase) mixed() bool {
+	for _, h := range c.hooks {
+		if h.call {
+			return true
+		}
+	}
+	return false
 }
 
 func spec(c wfCase) coresim.WorkflowSpec {
 	wf := coresim.WorkflowSpec{Name: c.name, Hosts: []string{"hostA"}, Tasks: []coresim.TaskSpec{{Name: "main", Class: "c09tmain", Mode: "direct", Critical: true, Host: "hostA"}}}
 	for i, h := range c.hooks {
+		if h.call {
+			tag := fmt.Sprintf("x%d", i)
+			wf.Calls = append(wf.Calls, fmt.Sprintf("  - name: %q\n    call:\n      func: sim.Call(%q)\n      trigger: %s%+d\n      timeout: 5s\n      critical: %v\n", tag, tag, h.moment, h.weight, h.crit))
+			continue
+		}
 		wf.Tasks = append(wf.Tasks, coresim.TaskSpec{Name: fmt.Sprintf("hook%d", i), Class: fmt.Sprintf("c09thook%d", i), Mode: "hook", Critical: h.crit, Host: "hostA",
 			Trigger: fmt.Sprintf("%s%+d", h.moment, h.weight)})
 	}
-	// markers: a call at weight -5 and +5 of every moment
+	// markers: a call at weight -5, 0 and +5 of every moment (the one at 0 separates the negative from the positive weights)
 	for _, m := range moments {
-		for _, w := range []string{"-5", "+5"} {
+		for _, w := range []string{"-5", "+0", "+5"} {
 			wf.Calls = append(wf.Calls, fmt.Sprintf("  - name: %q\n    call:\n      func: sim.Call(%q)\n      trigger: %s%s\n      timeout: 5s\n      critical: false\n", "m-"+m+w, m+w, m, w))
 		}
 	}
@@ -82,7 +103,15 @@ func scenario(group string, cs []wfCase, q, t vrt.Bounds) *vrt.Scenario {
 			okRun = false
 			c = cs[vrt.ChooseFree(len(cs), "workflow")]
 			assign = nil
-			for range c.hooks {
+			for k := range coresim.CallFail {
+				delete(coresim.CallFail, k)
+			}
+			for i, h := range c.hooks {
+				if h.call { // an integration call succeeds or fails
+					assign = append(assign, []coresim.Outcome{coresim.OK, coresim.ErrSource}[vrt.ChooseFree(2, "call-outcome")])
+					coresim.CallFail[fmt.Sprintf("x%d", i)] = assign[i] != coresim.OK
+					continue
+				}
 				assign = append(assign, outcomes[vrt.ChooseFree(len(outcomes), "termination")])
 			}
 			seq = nil
@@ -126,20 +155,14 @@ func scenario(group string, cs []wfCase, q, t vrt.Bounds) *vrt.Scenario {
 				}
 			}
 			okRun = true
-			var as []string
-			for _, a := range assign {
-				as = append(as, outName[a])
-			}
+			as := names(c, assign)
 			vrt.Logf("%s %v -> err=%v state=%s seq=%v", c.name, as, err != nil, st, seq)
 		},
 		Check: func(x *vrt.Exec) (out []vrt.Violation) {
 			if !okRun || x.Deadlock != "" {
 				return nil
 			}
-			var as []string
-			for _, a := range assign {
-				as = append(as, outName[a])
-			}
+			as := names(c, assign)
 			ctx := fmt.Sprintf("workflow %s hooks=%+v terminations=%v err=%v state=%s seq=%v", c.name, c.hooks, as, err, st, seq)
 			fail := func(cl, f string, a ...any) {
 				out = append(out, vrt.Violation{Clause: cl, Detail: fmt.Sprintf(f, a...) + "\n  " + ctx})
@@ -170,8 +193,8 @@ func scenario(group string, cs []wfCase, q, t vrt.Bounds) *vrt.Scenario {
 				if err != nil {
 					// what the core blames (part of the signature: different defects end in this clause)
 					trigErr := false
-					for _, a := range assign {
-						trigErr = trigErr || a == coresim.Undeliverable
+					for i, a := range assign {
+						trigErr = trigErr || (a == coresim.Undeliverable && !c.hooks[i].call)
 					}
 					how := "other"
 					switch {
@@ -189,6 +212,34 @@ func scenario(group string, cs []wfCase, q, t vrt.Bounds) *vrt.Scenario {
 			} else {
 				if err == nil {
 					fail("critical-hook-task-failure-not-reported:"+momentName(failAt.m)+":"+strings.Join(as, "+"), "START succeeded")
+				}
+				if failAt.m < 2 && err != nil {
+					// "an error naming the failure": every critical hook that failed at the cancelling point is named
+					// (hook tasks by their class, calls by their function), or the error says how many failed.
+					// A hook task whose trigger command could not be delivered is reported as a failed command instead.
+					var want []string
+					named := 0
+					for i, h := range c.hooks {
+						if !h.crit || assign[i] == coresim.OK || assign[i] == coresim.Undeliverable || mIdx[h.moment] != failAt.m || h.weight != failAt.w {
+							continue
+						}
+						n := fmt.Sprintf("c09thook%d", i)
+						if h.call {
+							n = fmt.Sprintf("x%d", i)
+						}
+						want = append(want, n)
+						if strings.Contains(err.Error(), n) {
+							named++
+						}
+					}
+					for i, h := range c.hooks {
+						if !h.call && assign[i] == coresim.Undeliverable && mIdx[h.moment] == failAt.m && h.weight == failAt.w {
+							want = nil // the one trigger command of the slot failed: none of its hook tasks ran, the command error is what is reported
+						}
+					}
+					if named < len(want) && !(len(want) > 1 && strings.Contains(err.Error(), fmt.Sprintf("%d ", len(want)))) {
+						fail(fmt.Sprintf("error-does-not-name-the-failed-hook:%d-of-%d-named:%s", named, len(want), strings.Join(as, "+")), "failed critical hooks at the cancelling point: %v", want)
+					}
 				}
 				if failAt.m < 2 {
 					// cancelled before the task transition: no task command, destination never published
@@ -246,6 +297,9 @@ func scenario(group string, cs []wfCase, q, t vrt.Bounds) *vrt.Scenario {
 			}
 			// C08 for hook tasks: every hook task is triggered at its moment and weight, relative to the markers and the task command
 			for i, h := range c.hooks {
+				if h.call {
+					continue // the order of calls is the subject of harness c08
+				}
 				tp := pos(fmt.Sprintf("TRIGGER:c09thook%d", i))
 				reach := !anyCritFail || mIdx[h.moment] < failAt.m || (mIdx[h.moment] == failAt.m && h.weight <= failAt.w) || (failAt.m >= 2 && (mIdx[h.moment] > failAt.m))
 				if mIdx[h.moment] == failAt.m && h.weight > failAt.w && anyCritFail {
@@ -268,9 +322,33 @@ func scenario(group string, cs []wfCase, q, t vrt.Bounds) *vrt.Scenario {
 				if startCmd >= 0 && (mIdx[h.moment] < 2) != (tp < startCmd) {
 					fail("hook-task-on-wrong-side-of-task-transition:"+h.moment, "hook%d", i)
 				}
+				// strictly by ascending weight: relative to the marker call at weight 0 of its moment and to the
+				// hook tasks of other weights of its moment
+				if m0 := pos("call:" + h.moment + "+0"); m0 >= 0 && ((h.weight < 0 && tp > m0) || (h.weight > 0 && tp < m0)) {
+					fail("hook-task-weight-order:"+h.moment, "hook%d (weight %+d) triggered at %d, the call of weight +0 ran at %d", i, h.weight, tp, m0)
+				}
+				for j, o := range c.hooks {
+					if op := pos(fmt.Sprintf("TRIGGER:c09thook%d", j)); !o.call && o.moment == h.moment && o.weight < h.weight && op > tp {
+						fail("hook-task-weight-order:"+h.moment, "hook%d (weight %+d) triggered before hook%d (weight %+d)", i, h.weight, j, o.weight)
+					}
+				}
 			}
 			return
 		}}
+}
+
+func names(c wfCase, assign []coresim.Outcome) (as []string) {
+	for i, a := range assign {
+		switch {
+		case c.hooks[i].call && a == coresim.OK:
+			as = append(as, "call-ok")
+		case c.hooks[i].call:
+			as = append(as, "call-fails")
+		default:
+			as = append(as, outName[a])
+		}
+	}
+	return
 }
 
 func momentName(m int) string {
@@ -284,16 +362,20 @@ func main() {
 		specs = append(specs, spec(c))
 	}
 	coresim.GlobalSetup(specs...)
-	var one, two []wfCase
+	var one, two, mixed []wfCase
 	for _, c := range cs {
-		if len(c.hooks) == 1 {
+		switch {
+		case c.mixed():
+			mixed = append(mixed, c)
+		case len(c.hooks) == 1:
 			one = append(one, c)
-		} else {
+		default:
 			two = append(two, c)
 		}
 	}
 	vrt.Main([]*vrt.Scenario{
 		scenario("hooktask1", one, vrt.Bounds{Dev: 0, Seconds: 100}, vrt.Bounds{Dev: 1, Seconds: 500}),
 		scenario("hooktask2", two, vrt.Bounds{Dev: 0, Seconds: 100}, vrt.Bounds{Dev: 1, Seconds: 500}),
+		scenario("hooktask-mixed", mixed, vrt.Bounds{Dev: 0, Seconds: 100}, vrt.Bounds{Dev: 1, Seconds: 200}),
 	})
 }
